@@ -43,6 +43,7 @@ def run(ck):
     ck.run_rule(x7_iteration_loop)
     ck.run_rule(x8_line_walk_bounded)
     ck.run_rule(x9_every_iteration_polls)
+    ck.run_rule(x10_loops_are_iterations)
     from .c17 import d1_d2_d3
     ck.run_rule(d1_d2_d3)
 
@@ -647,3 +648,40 @@ def x9_every_iteration_polls(ck):
            "an iteration of the deepening loop can complete without looking at the stop flag (the workers poll only every 10000th node of a counter "
            "that restarts in each iteration): on a position whose iterations stay small, e.g. 'k7/8/p1p1p1p1/P1P1P1P1/8/8/8/K7 w - - 0 1', a search "
            "without depth limit never obeys Stop", "every cycle of the loop passes an unconditional poll")
+
+
+def x10_loops_are_iterations(ck):
+    """A depth-limited search ends by itself only if every loop of the search thread does.  The loops of the pinned tree are all iterations:
+    each cycle of every function the search thread can reach steps an iterator (`Iterator::next` of a range, slice, vector, bit set ..),
+    whose length is fixed before the loop.  A `loop { .. }` / `while cond { .. }` cycle without an iterator step - a re-search loop, a retry
+    loop - needs its own termination argument; the rule reports it."""
+    prog = ck.prog
+    from callgraph import CallGraph
+    cg = CallGraph(prog)
+    table_fns = []
+    try:
+        table = ck.const("weechess_engine::eval::EVALUATORS", "X10")
+        table_fns = [x["$fn"] for row in table for x in row if isinstance(x, dict) and "$fn" in x]
+    except Exception:
+        pass
+    seen, _e, _i = cg.reachable([ITER], fn_values=table_fns)
+    n_loops = 0
+    n_fn = 0
+    for name in sorted(seen):
+        b = prog.raw_body(name)
+        if b is None or b.crate not in ("weechess_engine",):
+            continue
+        n_fn += 1
+        for be in cfg.back_edges(b):
+            L = cfg.natural_loop(b, be)
+            if any(b.is_cleanup(x) for x in L):
+                continue
+            n_loops += 1
+            steps = [bb for bb in L if b.term(bb)["k"] == "call" and "callee" in b.term(bb) and
+                     (is_iter_next(callee_name(b.term(bb))) or callee_name(b.term(bb)).split("::")[-1] in ("next", "next_back", "recv", "pop"))]
+            ck.req(bool(steps), "X10.loop_steps_iterator", "%s@bb%d" % (name.split("::")[-1], be[1]), b.where(b.term(be[1]).get("line")),
+                   "a loop of the search thread does not step an iterator (a `loop`/`while` cycle): nothing bounds its number of rounds, a depth-limited search "
+                   "may never finish by itself")
+    ck.floor("X10", n_loops, 5, "loops in the engine functions reachable from analyze_iterative")
+    ck.extra["X10_functions"] = n_fn
+    ck.extra["X10_loops"] = n_loops
